@@ -185,6 +185,15 @@ Theorem C10_same_times_after_failure_refuted :
 Proof. exact same_times_after_failure_refuted. Qed.
 Print Assumptions C10_same_times_after_failure_refuted.
 
+(* with shutdown handlers that take time the schedule is the one with shutdown phases (is_scheduleH):
+   a nested scheduler is, for the jobs that require it, a job that ends when its own run does,
+   shutdown phase included (first sentence of the property, in closed form) *)
+Theorem C10_runs_on_scheduleH : forall c S E h s, wf c = true -> plainH c = true -> is_scheduleH c S E ->
+  slackH c S E -> Reach 3 c h s -> calm c E s ->
+  forall x, x < njobs c -> x <> 0 -> on_schedule c S E s x.
+Proof. exact runs_on_scheduleH. Qed.
+Print Assumptions C10_runs_on_scheduleH.
+
 (* REFUTED as well when shutdown handlers take time (known finding F10), without any failure: a nested
    scheduler ends only after the shutdown phase of its own jobs (C13), so a job that requires it
    starts later than in the flattened graph.  Witness recorded from the implementation: y's body is
